@@ -562,9 +562,12 @@ def edit_byte_interval(
     size_delta = len(content) - length
 
     bi.size += size_delta
-    bi.contents = (
-        bi.contents[:offset] + content + bi.contents[offset + length :]
-    )
+    contents = bi.contents
+    if content and len(contents) < offset:
+        # The new content lies in the uninitialized part of the interval;
+        # the bytes in front of it have to become initialized.
+        contents = contents + b"\0" * (offset - len(contents))
+    bi.contents = contents[:offset] + content + contents[offset + length :]
 
     # adjust blocks that occur after the insertion point
     # TODO: what if blocks overlap over the insertion point?
